@@ -352,11 +352,54 @@ def wrapper_facts(common_tree):
     if not any(isinstance(s, ast.Delete) for s in ast.walk(d)):
         raise NotRecognised("cache_deactivate: no del")
     a = inner["cache_activate"]
-    fresh = any(isinstance(s, ast.Assign) and isinstance(s.value, ast.Dict) and not s.value.keys
-                and extract.dotted(s.targets[0]).endswith("._cache") for s in ast.walk(a))
-    if not fresh:
+
+    def is_ident_call(n):
+        return isinstance(n, ast.Call) and not n.args and extract.dotted(n.func).split(".")[-1] == "get_ident"
+
+    def empty_dict(n):
+        return isinstance(n, ast.Dict) and not n.keys
+    binds = [s for s in ast.walk(a) if isinstance(s, ast.Assign) and extract.dotted(s.targets[0]).endswith("._cache")]
+    if len(binds) != 1:
+        raise NotRecognised("cache_activate: expected exactly one `proc._cache = ...`")
+    val = binds[0].value
+    if empty_dict(val):
+        act_owner = False
+    elif isinstance(val, ast.Tuple) and len(val.elts) == 2 and is_ident_call(val.elts[0]) and empty_dict(val.elts[1]):
+        act_owner = True          # proc._cache = (threading.get_ident(), {})
+    else:
         raise NotRecognised("cache_activate: does not bind a fresh dict")
-    return {"storeReloads": reloads, "storeGuard": guard, "delSwallows": del_guard}
+    # the wrapper's side of it: `owner, cache = self._cache` and `if owner != get_ident(): return fun(self)` BEFORE the lookup
+    unpack = None
+    for n in ast.walk(w):
+        if isinstance(n, ast.Assign) and extract.dotted(n.value) == "self._cache":
+            t = n.targets[0]
+            if isinstance(t, ast.Tuple) and len(t.elts) == 2 and all(isinstance(e, ast.Name) for e in t.elts):
+                unpack = (t.elts[0].id, t.elts[1].id, n.lineno)
+            elif isinstance(t, ast.Name):
+                unpack = (None, t.id, n.lineno)
+            else:
+                raise NotRecognised("wrapper: `... = self._cache` target not recognised")
+    if unpack is None:
+        if not reloads:
+            raise NotRecognised("wrapper: no `cache = self._cache` load")
+        unpack = (None, None, 0)          # pre-repair shape: `self._cache[fun]` looked up and stored through the attribute
+    wr_owner = False
+    if unpack[0] is not None:
+        for n in ast.walk(w):
+            if isinstance(n, ast.If) and isinstance(n.test, ast.Compare) and len(n.test.ops) == 1 \
+                    and isinstance(n.test.ops[0], ast.NotEq) and n.lineno > unpack[2]:
+                sides = [n.test.left, n.test.comparators[0]]
+                names = [extract.dotted(x) for x in sides if isinstance(x, ast.Name)]
+                if names == [unpack[0]] and any(is_ident_call(x) for x in sides) \
+                        and any(isinstance(x, ast.Return) and isinstance(x.value, ast.Call)
+                                and extract.dotted(x.value.func) == "fun" for b in n.body for x in ast.walk(b)) \
+                        and n.lineno < st_node.lineno and not n.orelse:
+                    wr_owner = True
+    if isinstance(tgt.value, ast.Name) and unpack[1] is not None and tgt.value.id != unpack[1]:
+        raise NotRecognised("wrapper: the store does not go into the dict that was looked up")
+    if act_owner != wr_owner or (unpack[0] is not None) != act_owner:
+        raise NotRecognised("memoize_when_activated: cache_activate and wrapper disagree about the owner tag")
+    return {"storeReloads": reloads, "storeGuard": guard, "delSwallows": del_guard, "cacheOwnerOnly": act_owner}
 
 
 def facts(snap, F):
@@ -433,6 +476,10 @@ def facts(snap, F):
               "wrapper case 3 stores through a re-loaded self._cache (true) or into the dict it looked up (false)")
     F.try_add("storeGuard", "Bool", lambda: L.lean_bool(wf()["storeGuard"] or not wf()["storeReloads"]),
               "the case-3 store cannot let an AttributeError escape (guarded, or no attribute load at all)")
+
+    F.try_add("cacheOwnerOnly", "Bool", lambda: L.lean_bool(wf()["cacheOwnerOnly"]),
+              "cache_activate tags the dict with the activating thread (`proc._cache = (get_ident(), {})`) and the wrapper "
+              "consults / fills the cache only when `owner == get_ident()`; any other thread calls fun(self) directly")
 
     def guard_gone():
         fn = front().defs["_raise_if_pid_reused"]
